@@ -8,6 +8,7 @@ package bridge
 import (
 	"encoding/json"
 	"fmt"
+	"math"
 	"math/rand"
 	"sort"
 
@@ -178,20 +179,21 @@ func stakeInput(k *world.Key) map[string]interface{} {
 }
 
 // buildBase: one deterministic block on genesis in which the owner registers a1..a3 with the real
-// add-authorizer transaction and the delegate stakes each of them.
+// add-authorizer transaction and the delegate stakes a1 and a2 (a3 stays without stake).
 func (d *drv) buildBase() {
 	w := d.w
 	d.beginBlock(w.Genesis)
 	for i, k := range d.auths[:3] {
 		d.must(w.Do(d.sc(w.Owner, "add-authorizer", addAuthInput(k, d.deleg, 0.1*float64(i)), 0)), "add-authorizer "+k.Name)
-		d.must(w.Do(d.sc(d.deleg, "add-to-delegate-pool", stakeInput(k), stakeAmt)), "stake "+k.Name)
+		if i < 2 {
+			d.must(w.Do(d.sc(d.deleg, "add-to-delegate-pool", stakeInput(k), stakeAmt)), "stake "+k.Name)
+		}
 	}
 	st := d.snap()
 	if st.AuthCount != 3 || st.MaxFee != maxFee {
 		rec.Fatal("bridge base block: unexpected state %+v", st)
 	}
 	d.minBurn, d.minMint = st.MinBurn, st.MinMint
-	d.dbg()
 	d.base = w.EndBlock()
 	d.baseNow = w.Now
 	d.blkSeq = 0
@@ -258,15 +260,15 @@ func (d *drv) state(st *zcnsc.VerifBridgeState) rec.M {
 	for _, n := range d.ethNames {
 		nonces = append(nonces, pair{n, clamp(st.BurnNonce[d.eths[n]])})
 	}
-	auth, staked := []string{}, []string{}
+	auth, belowMin := []string{}, []string{}
 	rewards := []pair{}
 	for _, k := range append(append([]*world.Key{}, d.auths...), d.stranger) {
 		a := st.Auths[k.ID]
 		if a.Registered {
 			auth = append(auth, k.Name)
 		}
-		if a.HasPool && a.Stake >= d.minMint { // min_stake_per_delegate == min_mint == 100 units in sc.yaml
-			staked = append(staked, k.Name)
+		if a.Registered && a.BelowMin {
+			belowMin = append(belowMin, k.Name)
 		}
 		rewards = append(rewards, pair{k.Name, clamp(int64(a.Reward))})
 	}
@@ -274,7 +276,7 @@ func (d *drv) state(st *zcnsc.VerifBridgeState) rec.M {
 	for _, n := range st.MintedNonces {
 		minted = append(minted, clamp(n))
 	}
-	return rec.M{"nonces": nonces, "auth": auth, "staked": staked, "rewards": rewards, "minted": minted,
+	return rec.M{"nonces": nonces, "auth": auth, "below_min": belowMin, "rewards": rewards, "minted": minted,
 		"n_auth": st.AuthCount, "pct_milli": int64(st.Percent*1000 + 0.5), "min_burn": clamp(int64(st.MinBurn)),
 		"min_mint": clamp(int64(st.MinMint)), "max_fee": clamp(int64(st.MaxFee))}
 }
@@ -325,6 +327,8 @@ func (d *drv) trace(id int, kind string, steps []step) {
 			d.mint(s)
 		case "add", "del":
 			d.authOp(s)
+		case "cfg":
+			d.cfgOp(s)
 		case "block":
 			d.nextBlock()
 		default:
@@ -342,7 +346,15 @@ func (d *drv) key(name string) *world.Key {
 }
 
 func (d *drv) emit(ev string, args rec.M, res world.Result, pre, post map[string]uint64, shape string) {
-	m := d.state(d.snap())
+	d.emitWith(ev, args, res, pre, post, shape, nil)
+}
+
+func (d *drv) emitWith(ev string, args rec.M, res world.Result, pre, post map[string]uint64, shape string, derive func(st *zcnsc.VerifBridgeState, m rec.M)) {
+	st := d.snap()
+	m := d.state(st)
+	if derive != nil {
+		derive(st, m)
+	}
 	for k, v := range args {
 		m[k] = v
 	}
@@ -420,6 +432,7 @@ func (d *drv) mint(s step) {
 	msg := toSign(ethTxn, amount, s.N, rcv.ID)
 	sigs := []sigOut{}
 	logged := []pair{}
+	malformed := map[string]bool{}
 	for _, k := range s.Sigs {
 		var signer *world.Key
 		idx := 0
@@ -440,11 +453,16 @@ func (d *drv) mint(s step) {
 		case 'x':
 			sigs = append(sigs, sigOut{"", d.auths[0].Sign(msg)})
 			logged = append(logged, pair{"", 0})
+		case 'g': // not a signature at all
+			g := []string{"", "abcd", "zz", signer.Sign(msg)[:20]}[d.r.Intn(4)]
+			sigs = append(sigs, sigOut{signer.ID, g})
+			logged = append(logged, pair{signer.Name, 0})
+			malformed[signer.Name] = true
 		case 'f':
 			var sg string
 			switch d.r.Intn(7) {
 			case 0: // signed by another registered authorizer's key
-				sg = d.auths[(idx+1)%3].Sign(msg)
+				sg = d.auths[(idx+1)%len(d.auths)].Sign(msg)
 			case 1: // signed by the stranger
 				sg = d.stranger.Sign(msg)
 			case 2: // right key, other amount
@@ -472,12 +490,61 @@ func (d *drv) mint(s step) {
 	d.r.Shuffle(len(sigs), func(i, j int) { sigs[i], sigs[j] = sigs[j], sigs[i]; logged[i], logged[j] = logged[j], logged[i] })
 	input := map[string]interface{}{"ethereum_txn_id": ethTxn, "amount": amount, "nonce": s.N,
 		"signatures": sigs, "receiving_client_id": rcv.ID}
+	preSt := d.snap()
 	pre := d.balances()
 	res := w.DoRec(d.rc, d.sc(c, "mint", input, 0), nil)
 	post := d.balances()
-	d.emit("Mint", rec.M{"client": c.Name, "receiver": rcv.Name, "nonce": clamp(s.N), "amount": clamp(int64(amount)), "sigs": logged},
-		res, pre, post, fmt.Sprintf("%s/%v/%d", s.Amt, c == rcv, len(sigs)))
+	// input classes used by known-finding signatures (computed from the state BEFORE the transaction)
+	valid, wellFormed := map[string]bool{}, map[string]bool{}
+	unstaked := false
+	for _, e := range logged {
+		k, ok := w.ByName[e.A]
+		if !ok || e.A == "" || !preSt.Auths[k.ID].Registered {
+			continue
+		}
+		if e.D == 1 {
+			valid[e.A] = true
+		}
+		if !malformed[e.A] {
+			wellFormed[e.A] = true
+		}
+		if preSt.Auths[k.ID].BelowMin {
+			unstaked = true
+		}
+	}
+	thr := int(roundHalfEven(preSt.Percent * float64(preSt.AuthCount)))
+	quorum := "none"
+	if len(valid) >= thr && len(valid) > 0 {
+		quorum = "valid"
+	} else if len(wellFormed) >= thr && len(wellFormed) > 0 {
+		quorum = "forged"
+	}
+	d.emitWith("Mint", rec.M{"client": c.Name, "receiver": rcv.Name, "nonce": clamp(s.N), "amount": clamp(int64(amount)), "sigs": logged,
+		"quorum": quorum, "unstaked_signer": unstaked},
+		res, pre, post, fmt.Sprintf("%s/%v/%s", s.Amt, c == rcv, quorum), func(st *zcnsc.VerifBridgeState, m rec.M) {
+			var credited uint64
+			for id, a := range st.Auths {
+				credited += a.Reward - preSt.Auths[id].Reward
+			}
+			fc := "n/a"
+			if res.Class == "ok" {
+				fee := int64(amount) - udiff(post[c.ID], pre[c.ID])
+				switch {
+				case fee == 0:
+					fc = "zero"
+				case int64(credited) == fee:
+					fc = "full"
+				case credited == 0:
+					fc = "none"
+				default:
+					fc = "partial"
+				}
+			}
+			m["fee_credit"] = fc
+		})
 }
+
+func roundHalfEven(x float64) float64 { return math.RoundToEven(x) }
 
 func (d *drv) authOp(s step) {
 	w := d.w
@@ -494,6 +561,15 @@ func (d *drv) authOp(s step) {
 	d.emit("Auth", rec.M{"op": s.Op, "a": k.Name}, res, pre, post, s.Op)
 }
 
+// cfgOp changes percent_authorizers with the real update-global-config transaction.
+func (d *drv) cfgOp(s step) {
+	w := d.w
+	pre := d.balances()
+	res := w.DoRec(d.rc, d.sc(w.Owner, "update-global-config", map[string]interface{}{"fields": map[string]string{"percent_authorizers": s.V}}, 0), nil)
+	post := d.balances()
+	d.emit("Auth", rec.M{"op": "cfg", "a": s.V}, res, pre, post, "cfg")
+}
+
 // ---------------------------------------------------------------- random histories
 
 func (d *drv) randomSteps(a common.Args, i int) []step {
@@ -503,7 +579,7 @@ func (d *drv) randomSteps(a common.Args, i int) []step {
 		n = 20
 	}
 	clients := []string{"c1", "c2", "c3", "p1", "p2"}
-	sigKinds := []string{"v1", "v2", "v3", "v4", "f1", "f2", "f3", "u", "x"}
+	sigKinds := []string{"v1", "v2", "v3", "v4", "f1", "f2", "f3", "f4", "u", "x", "g1", "g2"}
 	vals := []string{"zero", "below", "min", "above", "above", "rich"}
 	eths := []string{"e1", "e2", "e3", "e1", "e2", ""}
 	maxNonce := int64(3 + r.Intn(12)) // beyond the partition size (5) in most traces
@@ -535,6 +611,8 @@ func (d *drv) randomSteps(a common.Args, i int) []step {
 			out = append(out, step{Op: "del", A: fmt.Sprintf("a%d", 1+r.Intn(4))})
 		case x < 18:
 			out = append(out, step{Op: "add", A: fmt.Sprintf("a%d", 1+r.Intn(4))})
+		case x < 19:
+			out = append(out, step{Op: "cfg", V: []string{"0.34", "0.5", "0.7", "0.9", "1"}[r.Intn(5)]})
 		default:
 			out = append(out, step{Op: "block"})
 		}
